@@ -210,6 +210,21 @@ def check(rec, kind, idx, rng, tier):
         yy, xx = np.mgrid[0:H, 0:W]
         ring = np.minimum(np.minimum(yy, H - 1 - yy), np.minimum(xx, W - 1 - xx))
         a = (ring % int(rng.choice([2, 3]))).astype(float); skind = 'nested'
+    if rng.random() < 0.12:
+        # many single-cell regions (every cell its own value) plus one U-shaped region near the start of the scan: far more
+        # provisional region ids than the initial merge table holds, one early merge, none afterwards
+        if rng.random() < 0.5:
+            H, W = int(rng.integers(9, 17)), int(rng.integers(9, 17))
+        else:
+            H, W = int(rng.integers(2, 4)), int(rng.integers(40, 81))
+        a = (np.arange(H * W).reshape(H, W) + 10).astype(float)
+        r0 = int(rng.integers(0, H - 1)); c0 = int(rng.integers(0, W - 4)); wdt = int(rng.integers(2, min(6, W - c0 - 1) + 1))
+        a[r0, c0] = 1; a[r0, c0 + wdt] = 1; a[r0 + 1, c0:c0 + wdt + 1] = 1
+        if rng.random() < 0.5: a = a[::-1].copy()
+        if rng.random() < 0.3:
+            a = a.T.copy()
+        H, W = a.shape
+        skind = 'unique_cells+U'
     dt = str(rng.choice(['int32', 'int64', 'float32', 'float64']))
     a = (a * float(rng.choice([1, 1, 5])) + float(rng.choice([0, 0, -2, 40]))).astype(dt)
     if np.dtype(dt).kind == 'i' and rng.random() < 0.35:
@@ -241,6 +256,9 @@ def check(rec, kind, idx, rng, tier):
                        0.0, float(rng.choice([1, -1, -30, 0.25])), float(rng.choice([0, 5, 1000.0]))])
         if rng.random() < 0.3:
             tr[1] = 0.5; tr[3] = -0.25    # shear/rotation terms
+        if rng.random() < 0.2:
+            tr = np.array([1.0, float(rng.choice([0.5, -1.0, 2.0])), 0.0, float(rng.choice([0.0, 1.0, -0.25])), 1.0, 0.0])     # unit scale, zero offset, shear only
+            rec.cls('transform.shear_only')
     for conn in (4, 8):
         rec.evaluation()
         res = rec.call(polygonize, r, mask=mk, connectivity=conn)
